@@ -13,11 +13,13 @@
     code's evaluation -- by-name lookup through the whole dynamic stack of scopes, with any
     caller stack underneath -- computes exactly the result of the lexical reference
     semantics in which a function body sees nothing but its own scope, unless that
-    semantics reports an under-applied function (excluded by type checking; the tie runs the
-    lexical semantics on every accepted program and compares). The hypothesis is needed:
+    semantics reports an under-applied function; for programs that pass the typing discipline
+    (Model/Typing.v, what inference enforces) that case is excluded and the two semantics
+    coincide outright ([C08_typed_evaluation_is_lexical]). The tie runs the lexical semantics on
+    every accepted program and compares. The hypothesis is needed:
     a witness shows the code reading the caller's binding on an unresolved tree. *)
 From Oal Require Import Resolve ResolveProofs.
-From Oal Require Eval EvalProofs.
+From Oal Require Eval EvalProofs Typing TermProofs.
 
 Theorem C08_stack_walk_is_lexical : forall t rest en acc,
   run (linearize t ++ rest) en acc =
@@ -111,3 +113,9 @@ Example C08_closed_program_evaluates :
   exists r, Eval.eval_program true EvalProofs.ex_P 50 EvalProofs.ex_rs = Eval.Ok r /\
             Eval.eval_program false EvalProofs.ex_P 50 EvalProofs.ex_rs = Eval.Ok r.
 Proof. exact EvalProofs.ex_closed_evaluates. Qed.
+
+Theorem C08_typed_evaluation_is_lexical : forall E P rs n,
+  Typing.wt_progb E P rs = true -> Eval.closed_prog P -> forallb (Eval.closed []) rs = true ->
+  Eval.eval_program false P n rs = Eval.eval_program true P n rs.
+Proof. exact TermProofs.typed_evaluation_is_lexical. Qed.
+Print Assumptions C08_typed_evaluation_is_lexical.
